@@ -415,10 +415,69 @@ func c03PkgInfoProgram(rng *core.Rand, pkg string) (src string, extra map[string
 			call("piped-inst", 0)
 		}
 	}
+	// signatures with structured types: a function as result (one Go function returning a function,
+	// not a two-parameter function), a function as parameter, tuple and slice, unit parameter / result
+	{
+		type shape struct{ sigLine, impl, use, want string }
+		mkShapes := func(pfx, q string, k int) []shape {
+			return []shape{
+				{fmt.Sprintf("  let %sAdder: int->(int->int)\n", pfx),
+					fmt.Sprintf("func %sAdder(a int) func(int) int {\n\tfmt.Println(\"%sAdder\", a)\n\treturn func(b int) int { return a + b }\n}\n\n", pfx, pfx),
+					fmt.Sprintf("  let ad%d = %s%sAdder %d\n  frt.Printf1 \"%%d\\n\" (ad%d 5)\n  frt.Printf1 \"%%d\\n\" (ad%d 6)\n", k, q, pfx, 10+k, k, k),
+					fmt.Sprintf("%sAdder %d\n%d\n%d\n", pfx, 10+k, 15+k, 16+k)},
+				{fmt.Sprintf("  let %sAdder: int->(int->int)\n", pfx),
+					fmt.Sprintf("func %sAdder(a int) func(int) int {\n\tfmt.Println(\"%sAdder\", a)\n\treturn func(b int) int { return a + b }\n}\n\n", pfx, pfx),
+					fmt.Sprintf("  let pd%d = %d |> %s%sAdder\n  frt.Printf1 \"%%d\\n\" (pd%d 1)\n", k, 20+k, q, pfx, k),
+					fmt.Sprintf("%sAdder %d\n%d\n", pfx, 20+k, 21+k)},
+				{fmt.Sprintf("  let %sConst: string->(()->string)\n", pfx),
+					fmt.Sprintf("func %sConst(s string) func() string {\n\tfmt.Println(\"%sConst\", s)\n\treturn func() string { return s + \"!\" }\n}\n\n", pfx, pfx),
+					fmt.Sprintf("  let cf%d = %s%sConst \"k%d\"\n  frt.Println (cf%d ())\n", k, q, pfx, k, k),
+					fmt.Sprintf("%sConst k%d\nk%d!\n", pfx, k, k)},
+				{fmt.Sprintf("  let %sApply: (int->string)->int->string\n", pfx),
+					fmt.Sprintf("func %sApply(f func(int) string, x int) string {\n\tfmt.Println(\"%sApply\", x)\n\treturn f(x)\n}\n\n", pfx, pfx),
+					fmt.Sprintf("  frt.Println (%s%sApply (fun (i:int) -> frt.Sprintf1 \"<%%d>\" i) %d)\n", q, pfx, 30+k),
+					fmt.Sprintf("%sApply %d\n<%d>\n", pfx, 30+k, 30+k)},
+				{fmt.Sprintf("  let %sPair: int->int*string\n", pfx),
+					fmt.Sprintf("func %sPair(a int) frt.Tuple2[int, string] {\n\tfmt.Println(\"%sPair\", a)\n\treturn frt.NewTuple2(a+1, \"p\")\n}\n\n", pfx, pfx),
+					fmt.Sprintf("  let (pa%d, pb%d) = %s%sPair %d\n  frt.Printf1 \"%%d\\n\" pa%d\n  frt.Println pb%d\n", k, k, q, pfx, 40+k, k, k),
+					fmt.Sprintf("%sPair %d\n%d\np\n", pfx, 40+k, 41+k)},
+				{fmt.Sprintf("  let %sSum: []int->int\n  let %sNone: ()->int\n  let %sSink: int->()\n", pfx, pfx, pfx),
+					fmt.Sprintf("func %sSum(xs []int) int {\n\tt := 0\n\tfor _, x := range xs {\n\t\tt += x\n\t}\n\tfmt.Println(\"%sSum\", len(xs))\n\treturn t\n}\n\nfunc %sNone() int {\n\tfmt.Println(\"%sNone\")\n\treturn 77\n}\n\nfunc %sSink(a int) {\n\tfmt.Println(\"%sSink\", a)\n}\n\n", pfx, pfx, pfx, pfx, pfx, pfx),
+					fmt.Sprintf("  frt.Printf1 \"%%d\\n\" (%s%sSum [1; 2; %d])\n  frt.Printf1 \"%%d\\n\" (%s%sNone ())\n  %s%sSink %d\n", q, pfx, k, q, pfx, q, pfx, 50+k),
+					fmt.Sprintf("%sSum 3\n%d\n%sNone\n77\n%sSink %d\n", pfx, 3+k, pfx, pfx, 50+k)},
+			}
+		}
+		seenSig := map[string]bool{}
+		for k, loc := range []bool{true, false, rng.Bool()} {
+			pfx, q := "locS", ""
+			if !loc {
+				pfx, q = "ExtS", "extp."
+			}
+			sh := mkShapes(pfx, q, k+1)[rng.Intn(6)]
+			if !seenSig[sh.sigLine] {
+				seenSig[sh.sigLine] = true
+				if loc {
+					infoLocal.WriteString(sh.sigLine)
+					wrap.WriteString(sh.impl)
+				} else {
+					infoExt.WriteString(sh.sigLine)
+					ext.WriteString(sh.impl)
+				}
+			}
+			body.WriteString(sh.use)
+			w.WriteString(sh.want)
+		}
+	}
 	fo.WriteString(infoLocal.String() + "\n" + infoExt.String() + "\n")
 	fo.WriteString("let Run () =\n" + body.String() + "  frt.Printf1 \"%d\\n\" (slice.Length [1])\n  frt.Println \"end\"\n")
 	w.WriteString("1\nend\n")
-	return fo.String(), map[string]string{"wrapper.go": wrap.String(), "extp/ext.go": ext.String()}, w.String()
+	fixImports := func(src string) string {
+		if strings.Contains(src, "frt.") {
+			return strings.Replace(src, "import \"fmt\"\n", "import (\n\t\"fmt\"\n\n\t\"github.com/karino2/folang/pkg/frt\"\n)\n", 1)
+		}
+		return src
+	}
+	return fo.String(), map[string]string{"wrapper.go": fixImports(wrap.String()), "extp/ext.go": fixImports(ext.String())}, w.String()
 }
 
 func runC03(r *core.Run, tier string) {
